@@ -137,37 +137,24 @@ func c06(p *core.Program, r *core.Report) {
 				push = c
 			}
 		}
-		blocked := eng.EdgeSet{}
 		layoutPrm := fn.Params[1]
-		for _, b := range fn.Blocks {
-			ifi := eng.BlockIf(b)
-			if ifi == nil {
-				continue
+		isNoLayout := func(v ssa.Value) bool { k, ok := eng.ConstInt(v); return ok && ln[k] == "NoLayout" }
+		e1 := eqPassEdges(fn, func(v ssa.Value) bool { return v == ssa.Value(layoutPrm) }, isNoLayout)
+		e2 := truePassEdges(fn, func(call *ssa.Call) bool {
+			if call.Call.StaticCallee() == nil || call.Call.StaticCallee().Name() != "isCompatibleLayout" {
+				return false
 			}
-			// layout != NoLayout : pass edge is the false edge
-			if c, ok := eng.EdgeCmp(b, 0); ok && c.Op == token.NEQ && c.X == ssa.Value(layoutPrm) {
-				if k, ok := eng.ConstInt(c.Y); ok && ln[k] == "NoLayout" {
-					blocked[[2]int{b.Index, 1}] = true
-				}
-			}
-			// !isCompatibleLayout(curLayout(), layout) : pass edge is the false edge
-			cond := ifi.Cond
-			neg := false
-			if u, ok := cond.(*ssa.UnOp); ok && u.Op == token.NOT {
-				cond, neg = u.X, true
-			}
-			if call, ok := cond.(*ssa.Call); ok && call.Call.StaticCallee() != nil && call.Call.StaticCallee().Name() == "isCompatibleLayout" {
-				a := call.Call.Args
-				if cl, ok := a[0].(*ssa.Call); ok && cl.Call.StaticCallee() != nil && cl.Call.StaticCallee().Name() == "curLayout" && a[1] == ssa.Value(layoutPrm) {
-					if neg {
-						blocked[[2]int{b.Index, 1}] = true
-					} else {
-						blocked[[2]int{b.Index, 0}] = true
-					}
-				}
-			}
+			a := call.Call.Args
+			return len(a) == 2 && isCallNamed(a[0], "curLayout") && a[1] == ssa.Value(layoutPrm)
+		})
+		blocked := eng.EdgeSet{}
+		for k := range e1 {
+			blocked[k] = true
 		}
-		ok := push != nil && len(blocked) == 2 && !eng.Reachable(fn.Blocks[0], blocked)[push.Block()]
+		for k := range e2 {
+			blocked[k] = true
+		}
+		ok := push != nil && len(e1) > 0 && len(e2) > 0 && !eng.Reachable(fn.Blocks[0], blocked)[push.Block()]
 		premises["P1"] = ok
 		r.Check(ok, rp, "P1/"+short(fn), p.Pos(fn.Pos()), true, "push is unreachable once the pass edges of (layout == NoLayout) and isCompatibleLayout(curLayout(), layout) are deleted", "a frame can be pushed although its layout is neither NoLayout nor compatible with the enclosing layout: the incompatibility is discovered only at pop, where it is an assertion (`uncaught layout incompatibility`)")
 	}
@@ -198,19 +185,9 @@ func c06(p *core.Program, r *core.Report) {
 			// call sites behind curLayout() == XYM
 			node := p.CallGraph().Nodes[setter]
 			for _, e := range node.In {
-				blk := e.Site.Block()
-				good := false
-				for d := blk; d != nil && d.Idom() != nil; d = d.Idom() {
-					id := d.Idom()
-					c, okc := eng.EdgeCmp(id, 0)
-					if okc && c.Op == token.EQL && id.Succs[0] == d {
-						if cl, isCall := c.X.(*ssa.Call); isCall && cl.Call.StaticCallee() != nil && cl.Call.StaticCallee().Name() == "curLayout" {
-							if k, isK := eng.ConstInt(c.Y); isK && ln[k] == "XYM" {
-								good = true
-							}
-						}
-					}
-				}
+				cf := e.Caller.Func
+				isXYM := func(v ssa.Value) bool { k, okk := eng.ConstInt(v); return okk && ln[k] == "XYM" }
+				good := unreachableWithout(cf, eqPassEdges(cf, func(v ssa.Value) bool { return isCallNamed(v, "curLayout") || isCallNamed(v, "topLayout") }, isXYM), e.Site.Block())
 				if !good {
 					ok, why = false, "setTopNextPointMustBeEmpty is called at "+p.Pos(e.Site.Pos())+" without curLayout() == XYM"
 				}
@@ -258,19 +235,9 @@ func c06(p *core.Program, r *core.Report) {
 					ok, why = false, "setTopLayout is also called from "+short(e.Caller.Func)
 					continue
 				}
-				blk := e.Site.Block()
-				good := false
-				for d := blk; d != nil && d.Idom() != nil; d = d.Idom() {
-					id := d.Idom()
-					c, okc := eng.EdgeCmp(id, 0)
-					if okc && c.Op == token.EQL && id.Succs[0] == d {
-						if cl, isCall := c.X.(*ssa.Call); isCall && cl.Call.StaticCallee() != nil && cl.Call.StaticCallee().Name() == "curLayout" {
-							if k, isK := eng.ConstInt(c.Y); isK && ln[k] == "NoLayout" {
-								good = true
-							}
-						}
-					}
-				}
+				cf := e.Caller.Func
+				isNo := func(v ssa.Value) bool { k, okk := eng.ConstInt(v); return okk && ln[k] == "NoLayout" }
+				good := unreachableWithout(cf, eqPassEdges(cf, func(v ssa.Value) bool { return isCallNamed(v, "curLayout") || isCallNamed(v, "topLayout") }, isNo), e.Site.Block())
 				if !good {
 					ok, why = false, "setTopLayout is called without curLayout() == NoLayout"
 				}
